@@ -5,21 +5,26 @@
 (*       v = value tree, encs = the DISTINCT byte strings produced by all encodings  *)
 (*       of v (fresh encoder, pooled encoders used concurrently, maps rebuilt in     *)
 (*       other insertion orders).  Required: no encoder error for a well-formed      *)
-(*       value; every byte string = Enc(Schema[ty], v); decoding the encoding is     *)
+(*       value; every byte string = Enc(AnySchema[ty], v); decoding the encoding is     *)
 (*       accepted, consumes exactly its length and yields v.                         *)
 (*  dec (C13, C14) {ty, cls, in, ok, consumed, dec, reenc, reencerr, panic, alloc}    *)
-(*       Required: no Go panic; accepted <=> Dec(Schema[ty], in) accepts; if         *)
+(*       Required: no Go panic; accepted <=> Dec(AnySchema[ty], in) accepts; if         *)
 (*       accepted, consumed = used (when the entry point reports it), value = the    *)
 (*       specified value, re-encoding = the consumed bytes (CheckVerdict; C13).      *)
 (*       C14 demands only what its statement demands: no panic, no process death     *)
 (*       and, with CheckAlloc:                                                       *)
 (*       alloc <= AllocK + AllocC * |in|   (alloc is an 8-byte little-endian tuple). *)
 (*       A record with "crash" (the driver process died inside this case) is bad.    *)
+(*       Optional flags of entry points that expose less (X09, stream handlers):     *)
+(*       nodec = the parsed value is not observable, noreenc = nothing re-encoded,   *)
+(*       lax = the entry point may also refuse for reasons outside the format.       *)
 (*                                                                                  *)
 (* Failures are reported as "<why>:<ty>".  Named deviations (open findings, enabled   *)
 (* only when their slug is in KnownDeviations) excuse one narrowly guarded class:    *)
 (*   metacode_empty_input   MetaCode.Decode accepts the EMPTY input as the empty     *)
 (*                          MetaCode (whose encoding is the single octet 00)         *)
+(*   ce145_decode_trailing_bytes  CE145Payload.Decode / decodeGuaranteeBytes accept   *)
+(*                          a valid judgment followed by trailing bytes (X09)         *)
 EXTENDS Schema, Json, SequencesExt
 CONSTANTS TraceFile, ResultFile, KnownDeviations, CheckVerdict, CheckAlloc, AllocK, AllocC
 VARIABLES l, devs, bad
@@ -36,12 +41,12 @@ JudgeRT3(e, ty, cv, want) ==
   \cup (IF e.panic # "" THEN {"panic"}
         ELSE IF ~e.ok THEN {"decoder_rejects_own_encoding"}
         ELSE (IF e.consumed # -1 /\ e.consumed # Len(e.encs[1]) THEN {"consumed_differs"} ELSE {})
-             \cup (IF Canon(ty, e.dec) # cv THEN {"decoded_value_differs"} ELSE {}))
+             \cup (IF ~HasField(e, "nodec") /\ Canon(ty, e.dec) # cv THEN {"decoded_value_differs"} ELSE {}))
 JudgeRT2(e, ty, cv) ==
   IF ~Valid(ty, cv) THEN {"generated_value_not_wellformed"}
   ELSE IF e.encerr # "" THEN {"encoder_error"}
   ELSE UNION {JudgeRT3(e, ty, cv, want) : want \in {EncC(ty, cv)}}
-JudgeRT(e) == UNION {JudgeRT2(e, Schema[e.ty], cv) : cv \in {Canon(Schema[e.ty], e.v)}}
+JudgeRT(e) == UNION {JudgeRT2(e, AnySchema[e.ty], cv) : cv \in {Canon(AnySchema[e.ty], e.v)}}
 
 AllocOk(e) == CmpNumLE(e.alloc, LE(AllocK + AllocC * Len(e.in), 8)) <= 0
 
@@ -49,17 +54,17 @@ AllocOk(e) == CmpNumLE(e.alloc, LE(AllocK + AllocC * Len(e.in), 8)) <= 0
 WantOf(e, d) == IF d.ok /\ e.exact /\ d.used # Len(e.in) THEN Fail("trailing bytes") ELSE d
 JudgeDec2(e, ty, want) ==
   (IF want.ok THEN
-     (IF ~e.ok THEN {"rejects_valid"}
+     (IF ~e.ok THEN (IF HasField(e, "lax") THEN {} ELSE {"rejects_valid"})
       ELSE (IF e.consumed # -1 /\ e.consumed # want.used THEN {"consumed_differs"} ELSE {})
-           \cup (IF Canon(ty, e.dec) # want.v THEN {"decoded_value_differs"} ELSE {})
-           \cup (IF e.reencerr # "" \/ e.reenc # Sub(e.in, 1, want.used) THEN {"reencoding_differs"} ELSE {}))
+           \cup (IF ~HasField(e, "nodec") /\ Canon(ty, e.dec) # want.v THEN {"decoded_value_differs"} ELSE {})
+           \cup (IF ~HasField(e, "noreenc") /\ (e.reencerr # "" \/ e.reenc # Sub(e.in, 1, want.used)) THEN {"reencoding_differs"} ELSE {}))
    ELSE (IF e.ok THEN {"accepts_invalid"} ELSE {}))
   \cup (IF CheckAlloc /\ ~AllocOk(e) THEN {"allocation_unbounded"} ELSE {})
 JudgeDec(e) ==
   IF HasField(e, "crash") THEN {"process_died"}
   ELSE IF e.panic # "" THEN {"panic"}
   ELSE IF ~CheckVerdict THEN (IF CheckAlloc /\ ~AllocOk(e) THEN {"allocation_unbounded"} ELSE {})
-  ELSE UNION {UNION {JudgeDec2(e, Schema[e.ty], want) : want \in {WantOf(e, d)}} : d \in {Dec(Schema[e.ty], e.in)}}
+  ELSE UNION {UNION {JudgeDec2(e, AnySchema[e.ty], want) : want \in {WantOf(e, d)}} : d \in {Dec(AnySchema[e.ty], e.in)}}
 
 Judge(e) == IF e.op = "rt" THEN JudgeRT(e) ELSE IF e.op = "dec" THEN JudgeDec(e) ELSE {}
 
@@ -70,6 +75,8 @@ Judge(e) == IF e.op = "rt" THEN JudgeRT(e) ELSE IF e.op = "dec" THEN JudgeDec(e)
 Slug(e, y) == y \o ":" \o e.ty
 Deviation(e, y) ==
   IF e.op = "dec" /\ y = "accepts_invalid" /\ e.ty = "MetaCode" /\ Len(e.in) = 0 /\ e.consumed = 0 THEN "metacode_empty_input"
+  ELSE IF e.op = "dec" /\ y = "accepts_invalid" /\ e.ty \in {"CE145", "CE145Guarantee"} /\ Dec(AnySchema[e.ty], e.in).ok
+       THEN "ce145_decode_trailing_bytes"
   ELSE "none"
 BadOf(T, i) == {[l |-> i, why |-> Slug(T[i], y)] : y \in {y \in Judge(T[i]) : Deviation(T[i], y) \notin KnownDeviations}}
 DevsOf(T, i) == {[l |-> i, slug |-> Deviation(T[i], y)] : y \in {y \in Judge(T[i]) : Deviation(T[i], y) \in KnownDeviations}}
